@@ -914,6 +914,7 @@ class Recorder:
         self.max_out = 0
         self.outstanding = 0
         self.ext = set()
+        self.outside = None         # why the execution is outside the model's vocabulary
         self.data_end = max([0] + [(o + n) * U for o, n in
                                    runs(set(c['data']), c['A'])])
 
@@ -945,6 +946,11 @@ class Recorder:
 
     def ans(self, ph, off, ln, k, n):
         if off in self.ext and ph == 'wr':
+            if k == 'err':
+                self.err_injected = True
+                self.outside = ('the write that extends the destination '
+                                'over the trailing hole was refused (the '
+                                'model extends atomically)')
             return
         self.outstanding -= 1
         if k == 'err':
@@ -1392,7 +1398,10 @@ def record_natural(seed, server='scripted', c=None, workdir=None):
             else:
                 ids = ids_of(dstb or b'', U, table)
             rec.end(res['outcome'] == 'raised', ids)
-            res['trace'] = {'c': c, 'ev': rec.ev}
+            if rec.outside:
+                res['untraced'] = rec.outside
+            else:
+                res['trace'] = {'c': c, 'ev': rec.ev}
         res['problems'] = rec.problems
         res['nreq'] = rec.nreq
         res['max_outstanding'] = rec.max_out
